@@ -625,6 +625,38 @@ TARGETS = [
                   reads={"read_u8": "takeLE bs 1", "read_u16": "takeLE bs 2", "skip": "takeBytes bs {0}"}, read_calls={"Offset::parse": "takeLE bs 8", "Size::parse": "takeLE bs 8", "Uuid::parse": "takeBytes bs 16", "SizedOffset::parse": "takeLE bs 8", "PackKind::parse": "packKindParse bs", "PString::parse": "takePString bs"},
                   methods={"len": "({recv}).length"},
                   struct_as={"Self": ["uuid", "pack_size", "check_info_pos", "pack_id", "pack_kind", "pack_group", "free_data_id", "pack_location"]})),
+    dict(name="clusterBuilderParse", group="Open", file="src/reader/content_pack/cluster.rs", fn="parse", after=r"impl Parsable for ClusterBuilder",
+         cfg=dict(params=[("bs", "Bytes"), ("header", "(Nat × Nat × Nat)")], ret="((List Nat × Nat × Nat) × Nat)", outcome=True,
+                  reads={"read_usized": "takeLE bs {0}"}, try_exprs={"ClusterHeader::parse(parser)": "(Outcome.ok header)"},
+                  methods={".offset_size": "({recv}).2.1", ".blob_count": "({recv}).2.2", ".compression": "({recv}).1", "into_usize": "{recv}",
+                           "is_valid": "(Generated.offsetIsValid {recv} {0})", "set_len": "()"},
+                  funcs={"Vec::with_capacity": "[]", "Offset::zero": "0"}, paths={"CompressionType::None": "0"},
+                  ignore_lets=["uninit"], ignore_stmts=["unsafe"],
+                  push_stmts={"elem.write(value)": ("blob_offsets", "value")},
+                  for_counts={"&uninit[0..blob_count]": "blob_count"}, loop_unused_ok=True,
+                  loop_vars=[("first", "Bool"), ("blob_offsets", "List Nat")], loop_consts=[("data_size", "Nat")],
+                  struct_as={"ClusterBuilder": ["blob_offsets", "data_size", "compression"]})),
+    dict(name="valueStoreKindParse", group="Open", file="src/reader/directory_pack/value_store.rs", fn="parse", after=r"impl Parsable for ValueStoreKind",
+         enums=[dict(rust="ValueStoreKind", file="src/reader/directory_pack/value_store.rs", lean="SrcVsKind", types={}, ctor_prefixes=["ValueStoreKind"])],
+         cfg=dict(params=[("bs", "Bytes")], ret="SrcVsKind", outcome=True, reads={"read_u8": "takeLE bs 1"})),
+    dict(name="valueStoreBuilderParse", group="Open", file="src/reader/directory_pack/value_store.rs", fn="parse", after=r"impl Parsable for ValueStoreBuilder",
+         strip_rx=[r"#\[cfg\(target_pointer_width = \"32\"\)\]\s*let value_count = if[^;]*?\};", r"#\[cfg\(target_pointer_width = \"64\"\)\]"],
+         cfg=dict(params=[("bs", "Bytes")], ret="(Option (List Nat) × Nat)", outcome=True,
+                  reads={"read_usized": "takeLE bs {0}"},
+                  read_calls={"ValueStoreKind::parse": "valueStoreKindParse bs", "Size::parse": "takeLE bs 8", "Count<u64>::parse": "takeLE bs 8",
+                              "ByteSize::parse": "((takeLE bs 1).bind fun (v, bs) => (byteSizeTryFrom v).bind fun s => Outcome.ok (s, bs))"},
+                  patterns={"ValueStoreKind::Plain": "SrcVsKind.plain", "ValueStoreKind::Indexed": "SrcVsKind.indexed"},
+                  methods={"into_u64": "{recv}", "into_usize": "{recv}", "is_valid": "(Generated.offsetIsValid {recv} {0})", "set_len": "()"},
+                  funcs={"Vec::with_capacity": "[]", "Offset::zero": "0", "ValueStoreBuilder::Indexed": "(some {0})"},
+                  paths={"ValueStoreBuilder::Plain": "none"},
+                  ignore_lets=["uninit"], push_stmts={"elem.write(value)": ("value_offsets", "value")},
+                  for_counts={"&uninit[0..value_count]": "value_count"}, loop_unused_ok=True,
+                  loop_vars=[("first", "Bool"), ("value_offsets", "List Nat")], loop_consts=[("offset_size", "Nat"), ("data_size", "Nat")])),
+    dict(name="checkInfoWrites", group="Check", file="src/common/check.rs", fn="serialize", after=r"impl Serializable for CheckInfo",
+         cfg=dict(params=[("b3hash_", "Option (List UInt8)")], ret="List (Nat × Nat)", writes=True, no_loops=True, write_data=True,
+                  prelude="let out : List (Nat × Nat) := []", prelude_scope=["out"], result="out",
+                  self_fields={"b3hash": "b3hash_"}, methods={"as_bytes": "{recv}"},
+                  serializes={"CheckKind::None": "[(0, 1)]", "CheckKind::Blake3": "[(1, 1)]"}, exprs={"Ok(33)": "out"})),
 ]
 
 
@@ -867,6 +899,9 @@ def main():
         try:
             src = read(t["file"])
             sig, body = rs2lean.function_source(src, t["fn"], t.get("after"))
+            for rx in t.get("strip_rx", []):
+                import re as _re2
+                body = _re2.sub(rx, "", body, flags=_re2.S)
             decls = apply_enums(t) if t.get("enums") else ""
             if t.get("proto"):
                 acts = proto_actions(body, t.get("select"))
